@@ -573,3 +573,39 @@ def rule_row_length_factor(ctx):
                 ctx.violated("ROWLEN", key, f.where(s.get("l")), "`%s` scales a row index by %s instead of the row length xdim: on a non-square image the region lands at the wrong offset" % (r[:70], "/".join(sorted(dims))))
     ctx.floor("ROWLEN", 3, n, "(row-index products in GRreadimage/GRwriteimage)")
     return n
+
+
+def rule_interlace_direction(ctx):
+    """ILDIR (C04, C09): image data is stored pixel-interlaced.  A read converts *from* pixel interlace *to* the interlace the
+    application requested (`im_il`, set by GRreqimageil; `lut_il` for palettes); a write converts from the interlace the image was
+    created with (`img_dim.il`) to pixel interlace.  Every GRIil_convert call in a GRread* routine therefore has PIXEL as its
+    input interlace and the requested interlace as its output, every call in a GRwrite* routine the creation interlace as input
+    and PIXEL as output — for whole-image and whole-chunk access alike, or the two return different component orders."""
+    from .facts import is_int, int_val
+    prog = ctx.prog
+    n = 0
+    for f in prog.lib_funcs():
+        if not f.rel.endswith("mfgr.c") or not (f.name.startswith("GRread") or f.name.startswith("GRwrite")):
+            continue
+        ordn = 0
+        for _b, _i, _s, c in f.calls():
+            if c[1] != "GRIil_convert" or len(c[3]) < 4:
+                continue
+            ordn += 1
+            n += 1
+            key = "ILDIR:%s#%d" % (f.name, ordn)
+            inil, outil = strip(c[3][1]), strip(c[3][3])
+            fld = lambda e: (mem_field(e) or (0, None))[1]
+            if f.name.startswith("GRread"):
+                ok = is_int(inil) and int_val(inil) == 0 and fld(outil) in ("im_il", "lut_il")
+                want = "PIXEL -> im_il / lut_il"
+            else:
+                ok = fld(inil) == "il" and is_int(outil) and int_val(outil) == 0
+                want = "img_dim.il -> PIXEL"
+            if ok:
+                ctx.holds("ILDIR", key, f.where(c[5]), "converts %s" % want, nontrivial=True)
+            else:
+                ctx.violated("ILDIR", key, f.where(c[5]), "`%s` converts %s -> %s where %s is required: this access path returns (or stores) the components in another order than "
+                             "its sibling" % (render(c)[:50], render(inil)[:25], render(outil)[:25], want))
+    ctx.floor("ILDIR", 4, n, "(interlace conversions in the GR read/write routines)")
+    return n
